@@ -1,6 +1,7 @@
 """C15 refused calls have no side effects: a corruption alphabet over a valid
 cache file (every truncation length, every single-bit flip, valid gzip of wrong
-payloads), the cache path being a directory, a wrong build name and every
+payloads, every JSON node replaced by a value of another type), the cache
+path being a directory, a wrong build name and every
 wrong-typed argument position, on trees with existing outputs."""
 import collections
 import gzip
@@ -38,6 +39,9 @@ def tasks(tier, seed):
                 for part in range(8):
                     out.append({'tier': tier, 'cfg': cfg, 'prep': prep, 'api': api, 'kind': 'bytes', 'part': [part, 8]})
                 out.append({'tier': tier, 'cfg': cfg, 'prep': prep, 'api': api, 'kind': 'payloads'})
+                if prep == 'intact':
+                    for part in range(4):
+                        out.append({'tier': tier, 'cfg': cfg, 'prep': prep, 'api': api, 'kind': 'shape', 'part': [part, 4]})
             out.append({'tier': tier, 'cfg': cfg, 'prep': prep, 'kind': 'types'})
     return out
 
@@ -77,6 +81,52 @@ def payload_variants(good):
     w = dict(j, buildName='other')
     out.append(('other-build-name', gz(w)))
     return out
+
+
+# one value of every JSON type; a node is replaced by each value of *another* type
+REPLACEMENTS = [None, True, 5, 'zz', [], {}]
+
+
+def jtype(v):
+    if v is None:
+        return 'null'
+    if isinstance(v, bool):
+        return 'bool'
+    if isinstance(v, (int, float)):
+        return 'number'
+    return {str: 'string', list: 'array', dict: 'object'}[type(v)]
+
+
+def json_nodes(j, path=()):
+    yield path, j
+    if isinstance(j, dict):
+        for k in sorted(j):
+            yield from json_nodes(j[k], path + (k,))
+    elif isinstance(j, list):
+        for i, x in enumerate(j):
+            yield from json_nodes(x, path + (i,))
+
+
+def replaced(j, path, v):
+    if not path:
+        return v
+    if isinstance(j, dict):
+        return {k: (replaced(x, path[1:], v) if k == path[0] else x) for k, x in j.items()}
+    return [(replaced(x, path[1:], v) if i == path[0] else x) for i, x in enumerate(j)]
+
+
+def shape_variants(good):
+    """Every node of the decoded cache file replaced by a value of every other
+    JSON type (valid gzip, valid JSON, right software / version / build name
+    unless that very node is hit)."""
+    j = json.loads(gzip.decompress(good))
+    for path, node in json_nodes(j):
+        if not path:
+            continue
+        for v in REPLACEMENTS:
+            if jtype(v) != jtype(node):
+                where = '/'.join('*' if isinstance(p, int) else p for p in path)
+                yield 'shape:%s=%s' % ('/'.join(map(str, path)), json.dumps(v)), where, gz(replaced(j, path, v))
 
 
 class Acc:
@@ -151,7 +201,62 @@ def work(ctx, task):
             return FB.build(cache, 'n', root)
         return FB.clean(cache, 'n')
 
-    if task['kind'] in ('bytes', 'payloads'):
+    if task['kind'] == 'shape':
+        # JSON of the wrong shape.  The call may go through (the node is not looked at, or the value
+        # is as good as any other); if it raises, it must raise before changing anything and before
+        # any user function is called.  For build the root function replays PROG, so that the records
+        # are looked up.
+        from ..dsl import Interp
+        from ..apis import RealApi
+        part, nparts = task['part']
+        calls = []
+
+        def root_prog(b):
+            inv.append('root')
+            it = Interp(PROG, {}, None)
+            calls.append(it)
+            return it.root(RealApi(ctx.fb, sb, b, None, {'bf_paths': [], 'answers': 0, 'mask': world.mask_names}, root=True))
+        nvar = 0
+        for j, (label, where, data) in enumerate(shape_variants(good)):
+            if j % nparts != part:
+                continue
+            nvar += 1
+            sb.restore(h)
+            st = os.stat(cache)
+            with open(cache, 'wb') as f:
+                f.write(data)
+            os.utime(cache, ns=(st.st_atime_ns, st.st_mtime_ns))
+            before = uni.snap(sb.R)
+            tmp_before = sb.tmp_listing()
+            del inv[:]
+            try:
+                if task['api'] == 'build':
+                    FB.build(cache, 'n', root_prog)
+                else:
+                    FB.clean(cache, 'n')
+                outcome = 'returned'
+            except Exception as e:
+                outcome = type(e).__name__
+            acc.counters['calls'] += 1
+            if outcome == 'returned':
+                acc.counters['accepted'] += 1
+                acc.outcomes.add(('shape-accepted', task['api'], where))
+                continue
+            after = uni.snap(sb.R)
+            changed = sorted(p for p in set(before) | set(after) if before.get(p) != after.get(p))
+            ran = bool(inv)
+            acc.outcomes.add(('shape-raised', task['api'], outcome, ran, bool(changed)))
+            if ran or changed or sb.tmp_listing() != tmp_before:
+                acc.counters['raised_late'] += 1
+                acc.bad('shape.raised_after_side_effects',
+                        {'api': task['api'], 'user_function_called': ran, 'tree_changed': bool(changed),
+                         'tmpdir_left': sb.tmp_listing() != tmp_before},
+                        what=label, exc=outcome, paths=changed[:5], cfg=task['cfg'])
+            else:
+                acc.counters['refused'] += 1
+        if part == 0:
+            acc.samples.append({'shape_variants_in_this_part': nvar, 'replacement_values': [json.dumps(v) for v in REPLACEMENTS]})
+    elif task['kind'] in ('bytes', 'payloads'):
         # baseline: the same call with the intact cache
         sb.restore(h)
         o, after = attempt('intact', api_call, False)
@@ -240,6 +345,7 @@ def coverage(res, tier):
         'distinct_nontrivial': len(res.outcomes),
         'refused': c.get('refused', 0),
         'accepted': c.get('accepted', 0),
+        'wrong_shape_raised_late': c.get('raised_late', 0),
         'exhaustive': True,
         'rule': 'evaluations = API calls (build or clean) made on a tree with outputs, created directories, a foreign '
                 'input and a valid cache file that was corrupted in one way: every truncation length 0..|B|-1, every '
@@ -249,7 +355,11 @@ def coverage(res, tier):
                 'root function): tree identical incl. inode and mtime, temp dir unchanged. Truncations, flips in the '
                 'magic/method bytes and in the CRC32/ISIZE trailer, wrong payloads and wrong types MUST be refused; '
                 'any other flip may be accepted (unchecked header fields, deflate padding bits) and must then '
-                'behave exactly like the intact cache. '
+                'behave exactly like the intact cache. JSON of the wrong shape: every node of the decoded cache '
+                'file replaced by one value of every other JSON type (null, true, 5, "zz", [], {}), build replaying '
+                'the program that wrote the cache so that the records are looked up: the call may go through, but '
+                'if it raises it must do so before the root function is entered and before anything changed '
+                '(raised_late counts the variants that break this; they are the open finding F25). '
                 'distinct_nontrivial = distinct (refused|accepted, api, exception class, corruption class).',
     }
 
